@@ -13,10 +13,10 @@ cd "$(dirname "$0")/.." || exit 2
 git -C "$WT" checkout -q -- . && git -C "$WT" apply "$OUT/patch.diff" || { echo "patch does not apply"; exit 2; }
 (cd "$WT" && /venv/bin/python setup.py build_ext --inplace >/dev/null 2>&1) || { echo "build failed"; exit 2; }
 timeout 300 /venv/bin/python "$OUT/demo.py" "$WT" >"$OUT/demo_changed.log" 2>&1; rc_changed=$?
-git -C "$WT" stash -q
+git -C "$WT" apply -R "$OUT/patch.diff"
 (cd "$WT" && /venv/bin/python setup.py build_ext --inplace >/dev/null 2>&1)
 timeout 300 /venv/bin/python "$OUT/demo.py" "$WT" >"$OUT/demo_pristine.log" 2>&1; rc_pristine=$?
-git -C "$WT" stash pop -q
+git -C "$WT" apply "$OUT/patch.diff"
 (cd "$WT" && /venv/bin/python setup.py build_ext --inplace >/dev/null 2>&1)
 echo "demo: changed rc=$rc_changed pristine rc=$rc_pristine"
 tools/run_baseline.sh "$WT" > "$OUT/baseline.log" 2>&1; rc_base=$?
